@@ -125,7 +125,7 @@ type c01Case struct {
 	Trim    bool              `json:"trim"`
 	LStrip  bool              `json:"lstrip"`
 	Globals bool              `json:"globals"`
-	Raw     []byte            `json:"raw,omitempty"` // layer (a): the entry source as raw bytes
+	Raw     []byte            `json:"raw,omitempty"`   // layer (a): the entry source as raw bytes
 	Route   string            `json:"route,omitempty"` // entry point of the set used to compile; "" = FromFile
 }
 
